@@ -23,6 +23,7 @@ type c09Case struct {
 	Missing bool         `json:"missing,omitempty"` // the target directory given with WithTargetDir does not exist yet
 	PreOps  []string     `json:"preOps,omitempty"`
 	PreRoot bool         `json:"preRoot,omitempty"` // the first root already exists in the target (the real run would fail with "path already exists")
+	NoIter  bool         `json:"noIter,omitempty"`  // output-md: with WithNoUseIterOfSimpleOutput (the non-iterator code path of the simple mode)
 }
 
 func init() { registerReplay("c09", c09Check) }
@@ -46,6 +47,7 @@ func c09Check(c c09Case) string {
 	dry.Opts.DryRun = true
 	dry.Opts.Exts = c.Exts
 	dry.Opts.Massive = c.Massive
+	dry.Opts.NoIter = c.NoIter && c.Route == "output-md"
 	dry.FS = &ops.FSSpec{}
 	dry.Opts.TargetOpt = "default" // the working directory is the target, as on the command line
 	if c.Missing {
@@ -200,6 +202,9 @@ func c09Record(col *collector, c c09Case) {
 		}
 	})
 	cl := []string{"route:" + c.Route}
+	if c.NoIter && c.Route == "output-md" {
+		cl = append(cl, "no-iter-path")
+	}
 	if c.Massive {
 		cl = append(cl, "massive")
 	} else {
@@ -247,6 +252,7 @@ func TestC09Random(t *testing.T) {
 			uniqRoots(f)
 		}
 		c := c09Case{Forest: f, Route: route, Massive: rapid.IntRange(0, 2).Draw(rt, "massive") == 0, Exts: genExts(f.Names()).Draw(rt, "exts")}
+		c.NoIter = route == "output-md" && rapid.IntRange(0, 2).Draw(rt, "noIter") == 0
 		c.Missing = rapid.IntRange(0, 3).Draw(rt, "missingTarget") == 0
 		c.PreRoot = rapid.IntRange(0, 3).Draw(rt, "preRoot") == 0
 		if route == "mkdir-root" && rapid.IntRange(0, 2).Draw(rt, "withPreOps") == 0 {
@@ -284,7 +290,7 @@ func TestC09Exhaustive(t *testing.T) {
 			}
 			for _, r := range routes {
 				rot++
-				c := c09Case{Forest: f, Route: r, Exts: exts, Massive: rot%3 == 0, Missing: rot%4 == 1, PreRoot: rot%5 == 2}
+				c := c09Case{Forest: f, Route: r, Exts: exts, Massive: rot%3 == 0, Missing: rot%4 == 1, PreRoot: rot%5 == 2, NoIter: rot%7 < 2}
 				c09Record(col, c)
 				if msg := c09Check(c); msg != "" {
 					violation(t, "C09", "c09", c, msg)
